@@ -2,7 +2,6 @@ package sim
 
 import (
 	"fmt"
-	"strings"
 )
 
 // The in-simulator race detector. The scheduler releases one task at a time, so the Go
@@ -54,14 +53,10 @@ type raceEpoch struct {
 }
 
 type raceLoc struct {
-	path  string
-	w     *raceEpoch
-	reads []raceEpoch
-}
-
-type raceObj struct {
-	base any // keeps the object alive: its address is not reused within the run
-	locs []*raceLoc
+	lo, hi uint8 // byte range inside the word
+	label  string
+	w      *raceEpoch
+	reads  []raceEpoch
 }
 
 type Race struct {
@@ -70,7 +65,8 @@ type Race struct {
 }
 
 type raceDet struct {
-	objs    map[any]*raceObj
+	words   map[uintptr][]*raceLoc // records per 8-byte word, by byte range (maps: the map's identity, tagged)
+	keep    []any                // the objects accessed so far: alive, hence their addresses are not reused
 	locks   map[any]*vclock
 	pools   map[any]*vclock
 	hand    vclock // what the harness's own hand-overs have published
@@ -81,70 +77,76 @@ type raceDet struct {
 }
 
 func newRaceDet() *raceDet {
-	return &raceDet{objs: map[any]*raceObj{}, locks: map[any]*vclock{}, pools: map[any]*vclock{}, seen: map[string]bool{}}
+	return &raceDet{words: map[uintptr][]*raceLoc{}, locks: map[any]*vclock{}, pools: map[any]*vclock{}, seen: map[string]bool{}}
 }
 
 func (t *Task) tick() { t.vc.set(t.ID, t.vc.get(t.ID)+1) }
 
-func related(a, b string) bool {
-	if len(a) > len(b) {
-		a, b = b, a
+func (r *raceDet) access(t *Task, pkg, site int, keep any, addr, size uintptr, label string, write, isMap bool) {
+	r.Accs++
+	r.keep = append(r.keep, keep)
+	cur := raceEpoch{task: t.ID, clk: t.vc.get(t.ID), site: pkg<<20 | site, locked: t.Locks > 0, name: t.Name}
+	if isMap {
+		r.word(t, addr|1, 0, 1, label, cur, write)
+		return
 	}
-	if !strings.HasPrefix(b, a) {
-		return false
+	if size == 0 {
+		return
 	}
-	return len(a) == len(b) || b[len(a)] == '.' || b[len(a)] == '['
+	if size > 512 {
+		size = 512
+	}
+	end := addr + size
+	for w := addr &^ 7; w < end; w += 8 {
+		lo, hi := uintptr(0), uintptr(8)
+		if addr > w {
+			lo = addr - w
+		}
+		if end < w+8 {
+			hi = end - w
+		}
+		r.word(t, w, uint8(lo), uint8(hi), label, cur, write)
+	}
 }
 
-type globalsKey struct{}
-
-func (r *raceDet) access(t *Task, pkg, site int, base any, loc string, write bool) {
-	r.Accs++
-	var key any = base
-	if base == nil {
-		key = globalsKey{}
-	}
-	o := r.objs[key]
-	if o == nil {
-		o = &raceObj{base: base}
-		r.objs[key] = o
-	}
-	cur := raceEpoch{task: t.ID, clk: t.vc.get(t.ID), site: pkg<<20 | site, locked: t.Locks > 0, name: t.Name}
+func (r *raceDet) word(t *Task, key uintptr, lo, hi uint8, label string, cur raceEpoch, write bool) {
 	var exact *raceLoc
-	for _, l := range o.locs {
-		if l.path == loc {
+	for _, l := range r.words[key] {
+		if l.lo == lo && l.hi == hi {
 			exact = l
 		}
-		if !related(l.path, loc) {
-			continue
+		if l.hi <= lo || hi <= l.lo {
+			continue // another part of the word
 		}
 		if l.w != nil && l.w.task != t.ID && l.w.clk > t.vc.get(l.w.task) {
-			r.report(loc, l.path, *l.w, true, cur, write)
+			r.report(label, l.label, *l.w, true, cur, write)
 		}
 		if write {
 			for _, rd := range l.reads {
 				if rd.task != t.ID && rd.clk > t.vc.get(rd.task) {
-					r.report(loc, l.path, rd, false, cur, true)
+					r.report(label, l.label, rd, false, cur, true)
 				}
 			}
 		}
 	}
 	if exact == nil {
-		exact = &raceLoc{path: loc}
-		o.locs = append(o.locs, exact)
+		exact = &raceLoc{lo: lo, hi: hi, label: label}
+		r.words[key] = append(r.words[key], exact)
 	}
+	l := exact
 	if write {
-		exact.w = &cur
-		exact.reads = exact.reads[:0]
+		c := cur
+		l.w, l.label = &c, label
+		l.reads = l.reads[:0]
 		return
 	}
-	for i := range exact.reads {
-		if exact.reads[i].task == t.ID {
-			exact.reads[i] = cur
+	for i := range l.reads {
+		if l.reads[i].task == t.ID {
+			l.reads[i] = cur
 			return
 		}
 	}
-	exact.reads = append(exact.reads, cur)
+	l.reads = append(l.reads, cur)
 }
 
 func (r *raceDet) report(loc, other string, prev raceEpoch, prevWrite bool, cur raceEpoch, curWrite bool) {
